@@ -144,9 +144,10 @@ theorem inv_wakeTimer {s s' : State} (h : Inv s) (hs : wakeTimer s = some s') : 
 
 /-- `Run` returns after a reply that was not a (valid) idle instruction. -/
 theorem inv_reply_ret {s : State} (h : Inv s) (ce : Bool) (hpc : s.pc = .sync ce) (r : Reply)
-    (mth : Option Nat) (ns : Nat) (mt err : Bool)
+    (mth : Option Nat) (ns ms : Nat) (mt err : Bool)
     (hni : ∀ ts, r ≠ .reply (some ts) .idle) (hok : mt = true → mth = none) :
-    Inv (retRun { s with lastReply := some r, mayThink := mth, nextSync := ns } mt err) := by
+    Inv (retRun { s with lastReply := some r, mayThink := mth, nextSync := ns, maxSync := ms }
+      mt err) := by
   obtain ⟨h1, h2, h3, h4, h5, h6, h7, h8, h9⟩ := h
   simp only [retRun]
   refine ⟨h1, h2, ?_, ?_, ?_, ?_, ?_, ?_, ?_⟩
@@ -169,8 +170,9 @@ theorem inv_reply_ret {s : State} (h : Inv s) (ce : Bool) (hpc : s.pc = .sync ce
   · exact logOK_append h9 _ (by intro hm; left; simp [snap]; exact hok hm)
 
 theorem inv_stopThen {s : State} (h : Inv s) (ce : Bool) (_hpc : s.pc = .sync ce) (r : Reply)
-    (mth : Option Nat) (ns : Nat) (k : DrainFor) (hk : toldFor k (some r)) :
-    Inv (stopThen { s with lastReply := some r, mayThink := mth, nextSync := ns } k) := by
+    (mth : Option Nat) (ns ms : Nat) (k : DrainFor) (hk : toldFor k (some r)) :
+    Inv (stopThen { s with lastReply := some r, mayThink := mth, nextSync := ns, maxSync := ms }
+      k) := by
   unfold stopThen
   split
   · rename_i e hc
@@ -207,7 +209,8 @@ theorem inv_stopThen {s : State} (h : Inv s) (ce : Bool) (_hpc : s.pc = .sync ce
     · exact logOK_append h9 _ trivial
   · rename_i hc
     simp at hc
-    exact inv_finishStop (s := { s with lastReply := some r, mayThink := mth, nextSync := ns })
+    exact inv_finishStop
+      (s := { s with lastReply := some r, mayThink := mth, nextSync := ns, maxSync := ms })
       h.retired hc h.logOK k hk
 
 theorem inv_reply {s s' : State} (h : Inv s) (r : Reply) (hs : reply s r = some s') : Inv s' := by
@@ -218,15 +221,15 @@ theorem inv_reply {s s' : State} (h : Inv s) (r : Reply) (hs : reply s r = some 
     | rpcError =>
       simp at hs; subst hs
       split
-      · exact inv_reply_ret h ce hpc _ _ _ _ _ (by simp) (by simp)
-      · exact inv_reply_ret h ce hpc _ _ _ _ _ (by simp) (by simp)
+      · exact inv_reply_ret h ce hpc _ _ _ _ _ _ (by simp) (by simp)
+      · exact inv_reply_ret h ce hpc _ _ _ _ _ _ (by simp) (by simp)
     | reply ts d =>
       cases ts with
       | none =>
         simp at hs; subst hs
         split
-        · exact inv_reply_ret h ce hpc _ _ _ _ _ (by simp) (by simp)
-        · exact inv_reply_ret h ce hpc _ _ _ _ _ (by simp) (by simp)
+        · exact inv_reply_ret h ce hpc _ _ _ _ _ _ (by simp) (by simp)
+        · exact inv_reply_ret h ce hpc _ _ _ _ _ _ (by simp) (by simp)
       | some ts =>
         cases d with
         | none =>
@@ -234,39 +237,39 @@ theorem inv_reply {s s' : State} (h : Inv s) (r : Reply) (hs : reply s r = some 
           split at hs
           · simp at hs; subst hs
             split
-            · exact inv_reply_ret h ce hpc _ _ _ _ _ (by simp) (by simp)
-            · exact inv_reply_ret h ce hpc _ _ _ _ _ (by simp) (by simp)
+            · exact inv_reply_ret h ce hpc _ _ _ _ _ _ (by simp) (by simp)
+            · exact inv_reply_ret h ce hpc _ _ _ _ _ _ (by simp) (by simp)
           · simp at hs; subst hs
             split
-            · exact inv_reply_ret h ce hpc _ _ _ _ _ (by simp) (by simp)
-            · exact inv_reply_ret h ce hpc _ _ _ _ _ (by simp) (by simp)
+            · exact inv_reply_ret h ce hpc _ _ _ _ _ _ (by simp) (by simp)
+            · exact inv_reply_ret h ce hpc _ _ _ _ _ _ (by simp) (by simp)
         | idle =>
           simp at hs; subst hs
           split
-          · exact inv_stopThen h ce hpc _ _ _ .idle ⟨ts, rfl⟩
-          · exact inv_stopThen h ce hpc _ _ _ .idle ⟨ts, rfl⟩
+          · exact inv_stopThen h ce hpc _ _ _ _ .idle ⟨ts, rfl⟩
+          · exact inv_stopThen h ce hpc _ _ _ _ .idle ⟨ts, rfl⟩
         | unknown =>
           simp at hs; subst hs
           split
-          · exact inv_reply_ret h ce hpc _ _ _ _ _ (by simp) (by simp)
-          · exact inv_reply_ret h ce hpc _ _ _ _ _ (by simp) (by simp)
+          · exact inv_reply_ret h ce hpc _ _ _ _ _ _ (by simp) (by simp)
+          · exact inv_reply_ret h ce hpc _ _ _ _ _ _ (by simp) (by simp)
         | execute e =>
           cases e with
           | ok dg =>
             simp at hs; subst hs
             split
-            · exact inv_stopThen h ce hpc _ _ _ (.start dg) ⟨ts, rfl⟩
-            · exact inv_stopThen h ce hpc _ _ _ (.start dg) ⟨ts, rfl⟩
+            · exact inv_stopThen h ce hpc _ _ _ _ (.start dg) ⟨ts, rfl⟩
+            · exact inv_stopThen h ce hpc _ _ _ _ (.start dg) ⟨ts, rfl⟩
           | badSuffix dg =>
             simp at hs; subst hs
             split
-            · exact inv_reply_ret h ce hpc _ _ _ _ _ (by simp) (by simp)
-            · exact inv_reply_ret h ce hpc _ _ _ _ _ (by simp) (by simp)
+            · exact inv_reply_ret h ce hpc _ _ _ _ _ _ (by simp) (by simp)
+            · exact inv_reply_ret h ce hpc _ _ _ _ _ _ (by simp) (by simp)
           | badDigestFunction dg =>
             simp at hs; subst hs
             split
-            · exact inv_reply_ret h ce hpc _ _ _ _ _ (by simp) (by simp)
-            · exact inv_reply_ret h ce hpc _ _ _ _ _ (by simp) (by simp)
+            · exact inv_reply_ret h ce hpc _ _ _ _ _ _ (by simp) (by simp)
+            · exact inv_reply_ret h ce hpc _ _ _ _ _ _ (by simp) (by simp)
   · simp at hs
 
 
